@@ -42,12 +42,32 @@ def is_one(d):
     return P(d).as_int() == 1
 
 
+def _memo(fn):
+    cache = {}
+
+    def wrapped(*idx):
+        try:
+            key = tuple(i.key if isinstance(i, Poly) else i for i in idx)
+            r = cache.get(key)
+            if r is not None:
+                return r
+        except TypeError:
+            return fn(*idx)
+        r = fn(*idx)
+        if len(cache) > 256:
+            cache.clear()
+        cache[key] = r
+        return r
+    wrapped._memo = True
+    return wrapped
+
+
 class Arr:
     __array_priority__ = 1000
 
     def __init__(self, shape, fn, dtype="real", kind="numpy", mask=None, chunks=None):
         self.shape = tuple(P(d) for d in shape)
-        self.fn = fn
+        self.fn = _memo(fn) if fn is not None and not getattr(fn, "_memo", False) else fn
         self.dtype = dtype
         self.kind = kind          # 'numpy' | 'dask'
         self.mask = mask          # None | (axis, maskfn(i)->Poly, fulldim)
